@@ -3,3 +3,9 @@ CLAIMED['C18'] = ('6/C18', 'Bounded-exhaustive symbolic check: every program of 
                   'object choice; k=2 quick, k=3 thorough) on the real ListProxy/Selector code is compared step by step with a Python '
                   'list + ordered-dict model (views, names, range, pop result, one event per mutation, membership of assigned values).',
                   'symbolic execution (CrossHair+z3) of Selector/ListProxy against a list/ordered-dict model, path tree exhausted per shard')
+CLAIMED['C13'] = ('6/C13', 'Bounded-exhaustive symbolic check: every program of k operations (namespace reads that populate caches, class-level '
+                  'sets, add_parameter new/overriding, instance creation, instance sets; symbolic opcode and target class; k=3 quick, k=4 '
+                  'thorough) over a chain and a diamond hierarchy; after the steps every class/instance is compared: '
+                  'inspect.getattr_static/getattr vs .param[...], in, iteration, values(), watch, serialize, repr, and class-level watchers '
+                  'observe getattr == event.new.',
+                  'symbolic execution (CrossHair+z3) of the Parameters namespace/cache code against attribute lookup, path tree exhausted per shard')
